@@ -1325,6 +1325,15 @@ def _optional_assignments(func, obj):
                 isinstance(n.targets[0], ast.Attribute) and \
                 isinstance(n.targets[0].value, ast.Name) and n.targets[0].value.id == obj:
             a = n.targets[0].attr
+            if isinstance(n.value, ast.IfExp):
+                # obj.a = X if cond else None   /   None if cond else X
+                v = n.value
+                b_none = isinstance(v.body, ast.Constant) and v.body.value is None
+                o_none = isinstance(v.orelse, ast.Constant) and v.orelse.value is None
+                if b_none != o_none:
+                    none_attrs.add(a)
+                    some.setdefault(a, []).append((v.test, o_none))
+                continue
             if isinstance(n.value, ast.Constant) and n.value.value is None:
                 none_attrs.add(a)
             else:
